@@ -326,7 +326,9 @@ impl<'a> World<'a> {
         let text = String::from_utf8(spec.payload.clone()).ok();
         let (payload, raw_text) = match supersedes {
             Some((old, true)) => (self.model.frames[old as usize].payload.clone(), self.model.frames[old as usize].raw_text.clone()),
-            _ => (if chunks.is_empty() { Some(spec.payload.clone()) } else { None }, text),
+            // "stored whole": binary data (even when its extracted text is chunked for search) and
+            // UTF-8 text that was not split; only split UTF-8 text is judged against its chunks
+            _ => (if chunks.is_empty() || text.is_none() { Some(spec.payload.clone()) } else { None }, text),
         };
         let reuse_children = match supersedes {
             Some((old, true)) => self.model.frames[old as usize].chunk_children.clone(),
